@@ -11,6 +11,8 @@ does with them: `batchify` of the original instances, `unbatchify` of rewards / 
 Layout (utils/ops.py): `batchify(x, K)` puts copy `k` of row `b` at flat row `k * B + b`;
 `unbatchify(y, K)[b][k] = y[k * B + b]`.
 -/
+import Rl4co.Generated.Params
+import Rl4co.Train.Batchify
 namespace Rl4co.Eval
 
 variable {β : Type}
@@ -56,11 +58,27 @@ def bestOfInner (rew : I → List Nat → Int) (K : Nat) (insts : List I) (acts 
 def msAugInner (rew : I → List Nat → Int) (A S : Nat) (insts : List I) (acts : List (List Nat)) : List (Int × List Nat) :=
   selectBest (S * A) (List.zipWith rew (tile A (tile S insts)) acts) acts
 
-/-- `SamplingEval._inner`: the policy's own `_select_best` (same unbatchify / max / gather idiom on the
-rewards of the `S` samples), after which `out["reward"]` is recomputed by `env.get_reward` on the
-selected rows. -/
-def samplingInner (rew : I → List Nat → Int) (S : Nat) (insts : List I) (acts : List (List Nat)) : List (Int × List Nat) :=
-  List.zipWith (fun i (ra : Int × List Nat) => (rew i ra.2, ra.2)) insts (bestOfInner rew S insts acts)
+/-- `max_idxs` of `unbatchify(rewards, K).max(dim=-1)`: per instance the index of its best candidate -/
+def bestIdx (K : Nat) (rs : List Int) : List Nat := (unbatch K rs).map argmax
+
+/-- `td = unbatchify_and_gather(td, max_idxs, num_starts)` in `DecodingStrategy._select_best`: the state row that goes
+with the selected rollout of instance `b` is row `max_idxs[b] * B + b` of the start-major replicated batch.
+(`gathers = false` models the alternative `td[:: num_starts]`, a strided slice; which one the source uses is extracted:
+`Params.augSelectBestGathersTd`.) -/
+def selectTd [Inhabited I] (gathers : Bool) (S : Nat) (tiled : List I) (idx : List Nat) : List I :=
+  let B := tiled.length / S
+  (List.range B).map fun b => if gathers then tiled.getD (idx.getD b 0 * B + b) default else tiled.getD (b * S) default
+
+/-- `SamplingEval._inner`: the policy batchifies the state (`S` samples, start-major), decodes, and `_select_best`
+picks per instance the best rollout: actions AND state rows are gathered with `max_idxs`; `out["reward"]` is then
+recomputed by `env.get_reward(td_selected, actions_selected)`. -/
+def samplingInner [Inhabited I] (rew : I → List Nat → Int) (S : Nat) (insts : List I) (acts : List (List Nat)) :
+    List (Int × List Nat) :=
+  let rs := rewardsOn rew S insts acts
+  let idx := bestIdx S rs
+  let actSel := List.zipWith (fun (a : List (List Nat)) j => a.getD j []) (unbatch S acts) idx
+  let tdSel := selectTd Params.augSelectBestGathersTd S (tile S insts) idx
+  List.zipWith (fun i a => (rew i a, a)) tdSel actSel
 
 /-! ### `EvalBase.__call__`: padding and concatenation across loader batches -/
 
@@ -144,5 +162,141 @@ def RowWise (πB : List (I × S) → List Nat) (π1 : I × S → Nat) : Prop := 
 (`unbatchify(td, S)`) and flattened back with `rearrange "b s l -> (s b) l"`. -/
 def regroupSB [Inhabited β] (S : Nat) (xss : List (List β)) : List β :=
   (List.range S).flatMap fun s => xss.map fun row => row.getD s default
+
+
+/-! ### row-locality of batched network layers (index algebra of the attention-model forward pass)
+
+A batched layer maps a batch (its size `B` and its rows `x : Nat → X`, row `b < B`) to output rows.  `RowLocal F`: the
+output row depends on the content of the SAME input row only — not on `B`, not on the position `b`, not on the other
+rows.  The bundled AM forward pass is a composition of the layer kinds below; the kinds that are NOT row-local are
+listed with them (Props/C14/AugRowWise.lean proves both halves). -/
+
+abbrev Layer (X Y : Type) := Nat → (Nat → X) → (Nat → Y)
+
+def RowLocal {X Y : Type} (F : Layer X Y) : Prop :=
+  ∀ B B' x x' b b', b < B → b' < B' → x b = x' b' → F B x b = F B' x' b'
+
+/-- a layer given by a per-row function -/
+def perRow {X Y : Type} (φ : X → Y) : Layer X Y := fun _ x b => φ (x b)
+/-- sequential composition `G ∘ F` -/
+def compL {X Y Z : Type} (G : Layer Y Z) (F : Layer X Y) : Layer X Z := fun B x => G B (F B x)
+/-- two branches on the same input combined entry-wise (residual connections, `q = context + graph_context`, …) -/
+def zipL {X Y Y' Z : Type} (op : Y → Y' → Z) (F : Layer X Y) (G : Layer X Y') : Layer X Z :=
+  fun B x b => op (F B x b) (G B x b)
+
+/-- one instance's activations: `row n d`, node `n`, feature `d` -/
+abbrev Row (α : Type) := Nat → Nat → α
+
+section kinds
+open Lean.Grind (CommRing)
+variable {α : Type} [CommRing α]
+
+def sumRange (n : Nat) (f : Nat → α) : α := (List.range n).foldl (fun acc k => acc + f k) 0
+
+/-- `nn.Linear` on the feature dimension: `out[b,n,e] = Σ_d W[e,d]·x[b,n,d] + bias[e]` -/
+def linearRow (D : Nat) (W : Nat → Nat → α) (bias : Nat → α) (row : Row α) : Row α :=
+  fun n e => sumRange D (fun d => W e d * row n d) + bias e
+
+/-- per-instance (self-)attention: scores, normaliser `w` (softmax, uninterpreted) and the weighted sum all range over
+the nodes `m < N` of the SAME row: `out[b,n] = Σ_m w(⟨x[b,n], x[b,·]⟩)_m · x[b,m]` -/
+def attnRow (N D : Nat) (w : (Nat → α) → Nat → α) (row : Row α) : Row α :=
+  fun n e => sumRange N (fun m => w (fun m' => sumRange D (fun d => row n d * row m' d)) m * row m e)
+
+/-- `nn.InstanceNorm1d` (after `permute(0,2,1)`): statistics of one channel over the nodes of ONE row -/
+def instNormRow (stat : (Nat → α) → α × α) (row : Row α) : Row α :=
+  fun n d => (row n d - (stat (fun n' => row n' d)).1) * (stat (fun n' => row n' d)).2
+
+/-- the code's `"layer"` branch: `x.mean((1, 2))`, `x.var((1, 2))` — statistics over nodes and features of ONE row -/
+def layerNormRow (stat : Row α → α × α) (row : Row α) : Row α :=
+  fun n d => (row n d - (stat row).1) * (stat row).2
+
+/-- `nn.BatchNorm1d` in EVAL mode: running mean / scale are constants of the module -/
+def batchNormEvalRow (μ ρ : Nat → α) (row : Row α) : Row α := fun n d => (row n d - μ d) * ρ d
+
+/-- graph context `embeddings.mean(1)` (sum over the row's own nodes; the `1/N` is a constant) -/
+def meanPoolRow (N : Nat) (row : Row α) : Row α := fun _ d => sumRange N (fun n => row n d)
+
+/-- context embedding `gather_by_index(embeddings, td["current_node"])`: the index comes from the same row's state -/
+def gatherRow (cur : Nat) (row : Row α) : Row α := fun _ d => row cur d
+
+/-! the kinds that mix rows -/
+
+/-- `nn.BatchNorm1d` with BATCH statistics (train mode, or `track_running_stats=False`): centering by the mean over all
+rows and nodes (`(B·N)·x − Σ_{b',n'} x`, the division-free form) -/
+def batchNormTrain (N : Nat) : Layer (Row α) (Row α) :=
+  fun B x b n d => (sumRange B fun _ => sumRange N fun _ => x b n d) - sumRange B (fun b' => sumRange N fun n' => x b' n' d)
+
+/-- a gate / feature computed from the mean over ALL rows of the batch (MVMoE light decoder: `out.view(-1, d).mean(0)`) -/
+def batchMeanGate : Layer (Row α) (Row α) := fun B x b n d => x b n d + sumRange B (fun b' => x b' 0 d)
+
+/-- a per-instance parameter read once from the FIRST row of the batch (`td[key][(0,) * dim]`, "get first item fast") -/
+def readsRowZero : Layer (Row α) (Row α) := fun _ x b n d => x b n d + x 0 0 d
+
+/-- random numbers drawn for the whole batch in row-major order (`torch.rand(b, c)`, MatNet's one-hot columns): row `b`
+consumes draws `b·C … b·C + C − 1` of the stream -/
+def rngLayer (C : Nat) (draw : Nat → α) : Layer (Row α) (Row α) := fun _ x b n d => x b n d + draw (b * C + d)
+
+end kinds
+
+/-- a shape shortcut that behaves differently at batch size one (`.squeeze()` of a `[B, 1, d]` tensor also drops the
+batch dimension when `B = 1`; `none` = the following `cat` raises) -/
+def squeezeAll {X Y : Type} (φ : X → Y) : Layer X (Option Y) := fun B x b => if B = 1 then none else some (φ (x b))
+
+/-- normalisation kinds of `Normalization` (`models/nn/ops.py`) -/
+inductive NormKind where
+  | batchEval | batchTrain | instNorm | layerNorm
+  deriving DecidableEq, Repr
+
+/-- kind selected by the class code of the extracted table, the `track_running_stats` flag and the module's mode -/
+def normKindOf (code : Nat) (tracksRunning evalMode : Bool) : NormKind :=
+  match code with
+  | 0 => if evalMode && tracksRunning then .batchEval else .batchTrain
+  | 1 => .instNorm
+  | _ => .layerNorm
+
+section
+open Lean.Grind (CommRing)
+variable {α : Type} [CommRing α]
+
+/-- `Normalization.forward` for each kind -/
+def normLayer (kind : NormKind) (N : Nat) (μ ρ : Nat → α) (istat : (Nat → α) → α × α) (lstat : Row α → α × α) :
+    Layer (Row α) (Row α) :=
+  match kind with
+  | .batchEval => perRow (batchNormEvalRow μ ρ)
+  | .instNorm => perRow (instNormRow istat)
+  | .layerNorm => perRow (layerNormRow lstat)
+  | .batchTrain => batchNormTrain N
+
+/-- one `MultiHeadAttentionLayer` of the AM encoder: `norm(x + mha(x))`, then `norm(h + ff(h))` -/
+def encoderLayer (N D : Nat) (w : (Nat → α) → Nat → α) (W : Nat → Nat → α) (bias : Nat → α)
+    (norm : Layer (Row α) (Row α)) : Layer (Row α) (Row α) :=
+  let add : Row α → Row α → Row α := fun r s n d => r n d + s n d
+  let h := compL norm (zipL add (perRow id) (perRow (attnRow N D w)))
+  compL (compL norm (zipL add (perRow id) (perRow (linearRow D W bias)))) h
+
+end
+
+/-- the batched policy built from a network layer and a per-row decision (masking + argmax of that row's logits) -/
+def policyOf {X L : Type} (dflt : X) (net : Layer X L) (pick : L → Nat) : List X → List Nat :=
+  fun rows => (List.range rows.length).map fun b => pick (net rows.length (fun j => rows.getD j dflt) b)
+
+/-! ### `PrecomputedCache.batchify` (AM decoder, multi-start with dynamic embeddings) -/
+
+/-- `emb.repeat_interleave(S, dim=0)`: row `r` is a copy of row `r / S` (instance-major) -/
+def repeatInterleave {α : Type} (x : Ops.Tens α) (S : Nat) : Ops.Tens α :=
+  match x.shape with
+  | [] => x
+  | n :: rest => { shape := (n * S) :: rest, get := fun idx => match idx with
+      | r :: t => x.get ((r / S) :: t)
+      | [] => x.get [] }
+
+/-- how a cached tensor is expanded to `S·B` rows: `ops.batchify(emb, num_starts)` (start-major) when `startMajor`,
+`repeat_interleave` otherwise; which one the source uses is extracted (`Params.augCacheStartMajor`) -/
+def cacheReplicate {α : Type} (startMajor : Bool) (x : Ops.Tens α) (S : Nat) : Ops.Tens α :=
+  if startMajor then Ops.batchify x [S] else repeatInterleave x S
+
+/-- `PrecomputedCache.batchify(num_starts)`: every tensor field expanded, non-tensor fields (`graph_context = 0`) kept -/
+def cacheBatchify {α : Type} (fields : List (Option (Ops.Tens α))) (S : Nat) : List (Option (Ops.Tens α)) :=
+  fields.map (Option.map fun x => cacheReplicate Params.augCacheStartMajor x S)
 
 end Rl4co.Eval
